@@ -181,6 +181,19 @@ def _install_module():
     asl_workflow_engine.sim_messaging = m
 
 
+class Trace(list):
+    """the effect trace; times[i] is the virtual time at which trace[i] was recorded"""
+
+    def __init__(self, clock):
+        super().__init__()
+        self.clock = clock
+        self.times = []
+
+    def append(self, x):
+        super().append(x)
+        self.times.append(self.clock.t)
+
+
 class CrashNow(BaseException):
     """Raised by the fabric to cut a handler short (not an Exception: nothing in the engine may swallow it)."""
 
@@ -211,7 +224,7 @@ class World:
         self.timers = {}                # (instance, id) -> dict(cb, due, seq, background)
         self.next_timer = 0
         self.requests = []              # task requests sent to worker queues: dict
-        self.trace = []                 # effect trace: tuples
+        self.trace = Trace(self.clock)  # effect trace: tuples (trace.times: when)
         self.notifications = []         # (subject, body dict)
         self.log_ops = []               # broker-level operations, for C03/C19
         self.crash_at_op = None         # raise CrashNow at the n-th broker operation
